@@ -66,7 +66,7 @@ Start(k) ==
             /\ pkid' = IdMap(1)
             /\ pk0' = IdMap(1)
     /\ flip' = 0 /\ nbad' = 0 /\ phase' = "sweep" /\ nlab' = 0
-    /\ UNCHANGED <<owner, todo, th, ci, out>>
+    /\ UNCHANGED <<owner, todo, th, ci, out, post>>
 
 TInit ==
     /\ tr = 0 /\ l = 0 /\ exact = 0
@@ -74,6 +74,7 @@ TInit ==
     /\ pkid = IdMap(1) /\ pk0 = IdMap(1)
     /\ owner = <<>> /\ todo = {} /\ th = [t \in Threads |-> Idle]
     /\ flip = 0 /\ nbad = 0 /\ phase = "sweep" /\ ci = 0 /\ nlab = 0 /\ out = <<>>
+    /\ post = [hist |-> <<>>, rc |-> TRUE]
 
 Cur == Traces[tr]
 NS == Len(Cur.sweeps)
@@ -112,7 +113,7 @@ TraceSweep ==
             /\ flip' = ev.flip
             /\ l' = l + 1
             /\ exact' = exact + (IF c = "ok" THEN 1 ELSE 0)
-            /\ UNCHANGED <<g, owner, todo, th, phase, ci, nlab, out, tr>>
+            /\ UNCHANGED <<g, owner, todo, th, phase, ci, nlab, out, post, tr>>
        ELSE /\ Verdict("reject", c, l + 1)
             /\ Start(tr + 1)
 
